@@ -196,11 +196,11 @@ where
         for (key, cache) in self.cache.iter() {
             let key_bytes = key.encode_vec();
             let cache_bytes = cache.encode_vec();
-            if cache.is_old(block_number) {
-                #[cfg(feature = "verif-hooks")]
-                crate::verif::fp(&format!("{}_cache", self.verif_name), "del", &key_bytes, None);
-                self.cache_db.delete(&key_bytes)?;
-            } else {
+            // An old history is dropped only after the value row is up to date: if the process dies between
+            // the two writes, the history that is still on disk lets a later reorg restore the value row.
+            // (A history that is kept is written before the value row for the same reason.)
+            let is_old = cache.is_old(block_number);
+            if !is_old {
                 #[cfg(feature = "verif-hooks")]
                 crate::verif::fp(&format!("{}_cache", self.verif_name), "put", &key_bytes, Some(&cache_bytes));
                 self.cache_db.put(&key_bytes, &cache_bytes)?;
@@ -214,6 +214,12 @@ where
                 #[cfg(feature = "verif-hooks")]
                 crate::verif::fp(&self.verif_name, "del", &key_bytes, None);
                 self.db.delete(&key_bytes)?;
+            }
+
+            if is_old {
+                #[cfg(feature = "verif-hooks")]
+                crate::verif::fp(&format!("{}_cache", self.verif_name), "del", &key_bytes, None);
+                self.cache_db.delete(&key_bytes)?;
             }
         }
 
